@@ -1,13 +1,12 @@
 (** * C14 — executable checks: inventory coverage, hazard allow-list, replay comparison
 
-    Three decidable questions, all evaluated by [vm_compute]:
+    Two decidable questions about the source tree, evaluated by [vm_compute] (the third check of the property, the
+    comparison of independent replays, is [Model/ReplayCheck.v] and does not depend on the inventory):
     - [unmatched_sites]: rows of the regenerated inventory ([Gen/HazardsGen.v: map_range_sites]) that match no row
       of [Model/MapLoops.v: site_table] — a new or changed [range]-over-map statement = an open proof obligation;
     - [unallowed_hazards]: (file, function) groups of [Gen/HazardsGen.v: other_hazards] whose number of hazardous
       constructs matches no allow-list row below — a new wall-clock read, random source, goroutine, file-system
-      access ... in the state machine's source;
-    - [replay_disagreements]: first position at which two independent replays of one recorded block history
-      differ (the property itself, as a Boolean on the IMPLEMENTATION's observed traces).
+      access ... in the state machine's source.
 
     The allow-list is ARGUMENT, not proof: each row names the reason why the value cannot reach state, results
     or events ([reasons]).  A reason id starting with [F_] would mark the source location of an UNREPAIRED finding
@@ -20,24 +19,24 @@ Local Open Scope string_scope.
 
 (** ** 1. inventory of [range]-over-map statements vs. the table *)
 
-Definition site_key (s : string * string * string * string * string) : string * string * string :=
-  let '(f, fn, _, h, _) := s in (f, fn, h).
+Definition site_key (s : string * string * string * string * string * string) : string * string * string * string :=
+  let '(f, fn, _, h, fh, _) := s in (f, fn, h, fh).
 
-Definition key_eqb (a b : string * string * string) : bool :=
-  let '(f1, g1, h1) := a in let '(f2, g2, h2) := b in
-  String.eqb f1 f2 && String.eqb g1 g2 && String.eqb h1 h2.
+Definition key_eqb (a b : string * string * string * string) : bool :=
+  let '(f1, g1, h1, k1) := a in let '(f2, g2, h2, k2) := b in
+  String.eqb f1 f2 && String.eqb g1 g2 && String.eqb h1 h2 && String.eqb k1 k2.
 
-Definition table_key (t : string * string * string * disposition) : string * string * string :=
-  let '(f, fn, h, _) := t in (f, fn, h).
+Definition table_key (t : string * string * string * string * disposition) : string * string * string * string :=
+  let '(f, fn, h, fh, _) := t in (f, fn, h, fh).
 
-Definition lookup_site (k : string * string * string) : option disposition :=
+Definition lookup_site (k : string * string * string * string) : option disposition :=
   match find (fun t => key_eqb k (table_key t)) site_table with
-  | Some (_, _, _, d) => Some d
+  | Some (_, _, _, _, d) => Some d
   | None => None
   end.
 
-(** inventory rows without a table row (file, function, hash) — must be empty *)
-Definition unmatched_sites : list (string * string * string) :=
+(** inventory rows without a table row (file, function, statement hash, function hash) — must be empty *)
+Definition unmatched_sites : list (string * string * string * string) :=
   filter (fun k => match lookup_site k with None => true | Some _ => false end) (map site_key map_range_sites).
 
 Definition is_proved (d : disposition) : bool := match d with Proved _ => true | Argued _ => false end.
@@ -51,10 +50,6 @@ Definition sites_argued : N := (sites_matched - sites_proved)%N.
 (** rows of the table whose statement no longer exists in the tree (harmless; reported) *)
 Definition stale_table_rows : N :=
   N.of_nat (List.length (filter (fun t => negb (existsb (fun s => key_eqb (site_key s) (table_key t)) map_range_sites)) site_table)).
-
-(** the lemma names the table relies on (checked against the certificates in [Proofs/MapLoopsTable.v]) *)
-Definition lemmas_used : list string :=
-  flat_map (fun t => match t with (_, _, _, Proved n) => [n] | _ => [] end) site_table.
 
 (** ** 2. every other hazard vs. the allow-list *)
 
@@ -197,70 +192,3 @@ Definition inventory_ok : bool :=
   N.eqb typecheck_errors 0 &&
   match unmatched_sites with [] => true | _ => false end &&
   match unallowed_hazards with [] => true | _ => false end.
-
-(** ** 3. replay comparison
-
-    One observation per recorded operation (InitChain, BeginBlock, DeliverTx, EndBlock, Commit, out-of-band keeper
-    call), as produced by harness/cmd/c14 on a FRESH application: outcome class, response code, gas wanted / used,
-    and SHA-256 digests (as numbers) of the response data, of the events (attributes of each event sorted — the
-    attribute order inside an event is compared separately, field 8), of validator / consensus-parameter updates
-    and, for Commit, the application hash itself. *)
-Record obs := {
-  o_kind : N;        (* 0 init 1 begin 2 tx 3 end 4 commit 5 oob *)
-  o_class : N;       (* 0 returned, 2 panicked *)
-  o_code : N;
-  o_gas_wanted : N;
-  o_gas_used : N;
-  o_data : N;
-  o_events : N;      (* canonical: attributes sorted inside each event *)
-  o_extra : N;
-  o_hash : N;        (* Commit: LastCommitID().Hash *)
-  o_events_raw : N   (* events exactly as returned *)
-}.
-
-(** first field in which two observations differ: 1 kind 2 class 3 code 4 gas 5 data 6 events 7 extra/updates
-    8 application hash 9 attribute order only; 0 = equal *)
-Definition obs_diff (a b : obs) : nat :=
-  if negb (N.eqb (o_kind a) (o_kind b)) then 1
-  else if negb (N.eqb (o_class a) (o_class b)) then 2
-  else if negb (N.eqb (o_code a) (o_code b)) then 3
-  else if negb (N.eqb (o_gas_wanted a) (o_gas_wanted b) && N.eqb (o_gas_used a) (o_gas_used b)) then 4
-  else if negb (N.eqb (o_data a) (o_data b)) then 5
-  else if negb (N.eqb (o_events a) (o_events b)) then 6
-  else if negb (N.eqb (o_extra a) (o_extra b)) then 7
-  else if negb (N.eqb (o_hash a) (o_hash b)) then 8
-  else if negb (N.eqb (o_events_raw a) (o_events_raw b)) then 9
-  else 0.
-
-Definition obs_eqb (a b : obs) : bool := match obs_diff a b with 0 => true | _ => false end.
-
-(** all differing positions of two traces: (step, field); a length mismatch is reported as field 10 *)
-Fixpoint trace_diffs (i : nat) (t1 t2 : list obs) : list (nat * nat) :=
-  match t1, t2 with
-  | [], [] => []
-  | a :: r1, b :: r2 =>
-      match obs_diff a b with
-      | 0 => trace_diffs (S i) r1 r2
-      | k => (i, k) :: trace_diffs (S i) r1 r2
-      end
-  | _, _ => [(i, 10)]
-  end.
-
-Definition traces_agree (t1 t2 : list obs) : bool := match trace_diffs 0 t1 t2 with [] => true | _ => false end.
-
-(** a case = the traces of one history from several independent replays (the first is the reference) *)
-Definition case_diffs (ts : list (list obs)) : list (nat * nat) :=
-  match ts with
-  | [] => []
-  | ref :: others => flat_map (fun t => trace_diffs 0 ref t) others
-  end.
-
-(** monitor: (case, (step, field)) for every disagreement — empty = every replay of every history agrees *)
-Fixpoint number_from {A} (i : nat) (l : list A) : list (nat * A) :=
-  match l with [] => [] | a :: t => (i, a) :: number_from (S i) t end.
-
-Definition replay_disagreements (cases : list (list (list obs))) : list (nat * (nat * nat)) :=
-  flat_map (fun c => map (fun d => (fst c, d)) (case_diffs (snd c))) (number_from 0 cases).
-
-(** the same, restricted to what Tendermint 0.34 puts under consensus (codes, data, gas, hashes): fields 1-5, 7, 8, 10 *)
-Definition consensus_field (k : nat) : bool := match k with 6 | 9 => false | _ => true end.
